@@ -96,7 +96,8 @@ def apply_op(params, db, model, op, x, y):
     if op == 0:
         name = PKGS[x]
         assume(name not in model)
-        tags = {TAGS[i] for i in range(len(TAGS)) if (y >> i) & 1}
+        universe = [TAGS[0], TAGS[1], PKGS[0], PKGS[1]]          # after reverse() package names act as tags
+        tags = {universe[i] for i in range(4) if (y >> i) & 1}
         multi_new = len(name) > 1 and any(not db.has_tag(t) for t in tags)
         if multi_new and "insert-new-tag-multichar" in params.get("known", []):
             raise Skip("known finding class insert-new-tag-multichar")
@@ -206,11 +207,27 @@ def h_db(params, p0: int, p1: int, p2: int, t0: int, t1: int,
     db = debtags.DB()
     db.read(iter(lines))
     check_db(db, model, "read")
-    swapped = False
+    history = []
     for k in range(nsteps):
         op, x, y = ops[k]
+        prev_db, prev_model = db, {p: set(ts) for p, ts in model.items()}
         db, model = apply_op(params, db, model, op, x, y)
         check_db(db, model, "%s (step %d)" % (OPNAMES[op], k + 1))
+        if db is not prev_db:
+            history.append((prev_db, prev_model, OPNAMES[op]))
+        # collections from which this one was derived by a *_copy operation must not be affected by
+        # later edits of the derived one (and must stay internally consistent in any case)
+        for (odb, omodel, how) in history:
+            # the sharing variants (filter_*, choose_packages, reverse) document that they share their
+            # sets with the source: editing the derived collection may then change the source
+            if not (how.endswith("_copy") or how == "copy"):
+                continue
+            fwd = {(p, t) for p in odb.iter_packages() for t in odb.tags_of_package(p)}
+            rev = {(p, t) for t in odb.iter_tags() for p in odb.packages_of_tag(t)}
+            require(fwd == rev, "the source of a copying derivation is no longer self-consistent after step %d" % (k + 1),
+                    derived_by=how, fwd=sorted(fwd), rev=sorted(rev))
+            require(fwd == pairs_of(omodel), "a copying derivation is not independent of its source", derived_by=how,
+                    got=sorted(fwd), want=sorted(pairs_of(omodel)))
 
 
 def partitions(tier, seed):
